@@ -4,7 +4,7 @@
    exp(-d^2/(2 s^2)) written independently over R (0 for a missing keypoint). *)
 From Coq Require Import List Arith ZArith QArith Qreals Reals.
 Import ListNotations.
-From SV Require Import C01.ConfMaps C01.Lemmas.
+From SV Require Import C01.ConfMaps C01.Lemmas C01.Entry C01.TExpr C01.Lemmas2.
 Local Open Scope R_scope.
 
 (* value formula at every grid cell of every channel of generate_confmaps:
@@ -91,4 +91,182 @@ Print Assumptions c01_grid_length_exact.
 (* non-vacuity: a concrete keypoint / grid meets the hypotheses *)
 Example ex_c01_nonvacuous :
   exists a, cell4 (generate_confmaps3 [[Some (3#2, 5#2)]] 8 8 (3#2) 2) 0 0 1 1 = Some a.
+Proof. eexists. vm_compute. reflexivity. Qed.
+
+(* ====================================================================== round 2 *)
+
+(* rank-4 input of generate_confmaps ((samples, instances, nodes, 2), flattened
+   by .view): channel k*n_nodes + c holds node c of animal k *)
+Theorem c01_value_formula_rank4 :
+  forall pts H W sigma s smp insts n_nodes k inst c p i j,
+  (0 < s)%nat -> (0 < sigma)%Q ->
+  nth_error pts smp = Some insts -> Forall (fun l => length l = n_nodes) insts ->
+  nth_error insts k = Some inst -> nth_error inst c = Some p ->
+  (i * s < H)%nat -> (j * s < W)%nat ->
+  exists a,
+    cell4 (generate_confmaps4 pts H W sigma s) smp (k * n_nodes + c) i j = Some a /\
+    val a = gauss_spec p (INR (j * s)) (INR (i * s)) (Q2R sigma * INR s).
+Proof. exact generate_confmaps4_cell. Qed.
+Print Assumptions c01_value_formula_rank4.
+
+(* generate_multiconfmaps end to end (stride grid, sigma*stride, the slice by
+   num_instances): per-cell maximum over the animals *)
+Theorem c01_multi_value_formula :
+  forall pts n_nodes H W num sigma s smp c i j,
+  (0 < s)%nat -> (0 < sigma)%Q ->
+  (i * s < H)%nat -> (j * s < W)%nat -> (c < n_nodes)%nat -> (smp < length pts)%nat ->
+  Forall (fun inst => length inst = n_nodes) (concat pts) ->
+  exists a,
+    cell4 (generate_multiconfmaps pts n_nodes H W num sigma s) smp c i j = Some a /\
+    val a = Rmax_list (map (fun inst => gauss_spec (nth c inst None) (INR (j * s)) (INR (i * s))
+                                                   (Q2R sigma * INR s))
+                           (concat (map (firstn num) pts))).
+Proof. exact generate_multiconfmaps_cell. Qed.
+Print Assumptions c01_multi_value_formula.
+
+Theorem c01_centroid_value_formula :
+  forall cents H W num sigma s smp i j,
+  (0 < s)%nat -> (0 < sigma)%Q ->
+  (i * s < H)%nat -> (j * s < W)%nat -> (smp < length cents)%nat ->
+  exists a,
+    cell4 (generate_multiconfmaps_centroids cents H W num sigma s) smp 0 i j = Some a /\
+    val a = Rmax_list (map (fun c => gauss_spec c (INR (j * s)) (INR (i * s)) (Q2R sigma * INR s))
+                           (concat (map (firstn num) cents))).
+Proof. exact generate_multiconfmaps_centroids_cell. Qed.
+Print Assumptions c01_centroid_value_formula.
+
+(* every cell of a multi-instance / centroid map lies in [0,1] (finite, not NaN) *)
+Theorem c01_multi_range :
+  forall pts n_nodes xv yv sig smp c i j x y,
+  (0 < sig)%Q -> nth_error yv i = Some y -> nth_error xv j = Some x ->
+  (c < n_nodes)%nat -> (smp < length pts)%nat ->
+  Forall (fun inst => length inst = n_nodes) (concat pts) ->
+  exists a, cell4 (make_multi_confmaps pts n_nodes xv yv sig) smp c i j = Some a /\ 0 <= val a <= 1.
+Proof. exact multi_confmaps_range. Qed.
+Print Assumptions c01_multi_range.
+
+(* a node that no contributing animal has labelled gives an all-zero channel *)
+Theorem c01_multi_missing_channel_zero :
+  forall pts n_nodes xv yv sig smp c i j x y,
+  (0 < sig)%Q -> nth_error yv i = Some y -> nth_error xv j = Some x ->
+  (c < n_nodes)%nat -> (smp < length pts)%nat ->
+  Forall (fun inst => length inst = n_nodes) (concat pts) ->
+  Forall (fun inst => nth c inst None = None) (concat pts) ->
+  exists a, cell4 (make_multi_confmaps pts n_nodes xv yv sig) smp c i j = Some a /\ val a = 0.
+Proof. exact multi_confmaps_missing_channel_zero. Qed.
+Print Assumptions c01_multi_missing_channel_zero.
+
+(* largest at the nearest grid cell, on the output of generate_confmaps *)
+Theorem c01_nearest_cell_is_largest :
+  forall pts H W sigma s smp nodes c q i j i' j',
+  (0 < s)%nat -> (0 < sigma)%Q ->
+  nth_error pts smp = Some nodes -> nth_error nodes c = Some (Some q) ->
+  (i * s < H)%nat -> (j * s < W)%nat -> (i' * s < H)%nat -> (j' * s < W)%nat ->
+  dist2 q (INR (j * s)) (INR (i * s)) <= dist2 q (INR (j' * s)) (INR (i' * s)) ->
+  exists a a',
+    cell4 (generate_confmaps3 pts H W sigma s) smp c i j = Some a /\
+    cell4 (generate_confmaps3 pts H W sigma s) smp c i' j' = Some a' /\
+    val a' <= val a.
+Proof. exact generate_confmaps3_nearest_is_largest. Qed.
+Print Assumptions c01_nearest_cell_is_largest.
+
+(* shapes: (samples, nodes, ceil(H/stride), ceil(W/stride)) *)
+Theorem c01_shape_single :
+  forall pts H W sigma s,
+  length (generate_confmaps3 pts H W sigma s) = length pts /\
+  forall smp nodes, nth_error pts smp = Some nodes ->
+    exists chans, nth_error (generate_confmaps3 pts H W sigma s) smp = Some chans /\
+      length chans = length nodes /\
+      Forall (cmap_shape (ceil_div H s) (ceil_div W s)) chans.
+Proof. exact generate_confmaps3_shape. Qed.
+Print Assumptions c01_shape_single.
+
+Theorem c01_shape_multi :
+  forall pts n_nodes xv yv sig,
+  Forall (fun inst => length inst = n_nodes) (concat pts) ->
+  length (make_multi_confmaps pts n_nodes xv yv sig) = length pts /\
+  Forall (fun chans => length chans = n_nodes /\ Forall (cmap_shape (length yv) (length xv)) chans)
+         (make_multi_confmaps pts n_nodes xv yv sig).
+Proof. exact make_multi_confmaps_shape. Qed.
+Print Assumptions c01_shape_multi.
+
+(* the DataPipes: ConfidenceMapGenerator is generate_confmaps (both key
+   options), the centroid pipe is the centroid variant; the multi-instance pipe
+   does not slice by num_instances and agrees with generate_multiconfmaps when
+   the rows beyond num_instances are unlabelled (NaN padding) *)
+Theorem c01_datapipe_single :
+  (forall pts H W sigma s, dp_single_instances pts H W sigma s = generate_confmaps4 pts H W sigma s) /\
+  (forall pts H W sigma s, dp_single_other pts H W sigma s = generate_confmaps3 pts H W sigma s) /\
+  (forall cents H W num sigma s,
+     dp_centroids cents H W num sigma s = generate_multiconfmaps_centroids cents H W num sigma s).
+Proof. exact (conj dp_single_instances_eq (conj dp_single_other_eq dp_centroids_eq)). Qed.
+Print Assumptions c01_datapipe_single.
+
+Theorem c01_datapipe_multi_ignores_padding :
+  forall pts n_nodes H W num sigma s smp c i j,
+  (0 < s)%nat -> (0 < sigma)%Q ->
+  (i * s < H)%nat -> (j * s < W)%nat -> (c < n_nodes)%nat -> (smp < length pts)%nat ->
+  Forall (fun inst => length inst = n_nodes) (concat pts) ->
+  Forall (fun smp => Forall (fun inst => nth c inst None = None) (skipn num smp)) pts ->
+  exists a b,
+    cell4 (dp_multi pts n_nodes H W sigma s) smp c i j = Some a /\
+    cell4 (generate_multiconfmaps pts n_nodes H W num sigma s) smp c i j = Some b /\
+    val a = val b.
+Proof. exact dp_multi_cell_ignores_padding. Qed.
+Print Assumptions c01_datapipe_multi_ignores_padding.
+
+(* the description language of TExpr.v: the canonical descriptions of the five
+   function bodies denote the model functions (the per-run obligations in
+   Gen/C01_ConfmapsOblig.v instantiate these with the descriptions regenerated
+   from the source) *)
+Theorem c01_ir_make_confmaps : forall pts xv yv sig,
+  denote_confmaps canon_confmaps pts xv yv sig = as_tval (make_confmaps pts xv yv sig).
+Proof. exact denote_confmaps_canon. Qed.
+Print Assumptions c01_ir_make_confmaps.
+
+Theorem c01_ir_make_grid_vectors : forall H W s, denote_grid canon_grid H W s = make_grid_vectors H W s.
+Proof. exact denote_grid_canon. Qed.
+Print Assumptions c01_ir_make_grid_vectors.
+
+Theorem c01_ir_make_multi_confmaps : forall pts n_nodes xv yv sig,
+  denote_multi canon_multi pts n_nodes xv yv sig = Some (make_multi_confmaps pts n_nodes xv yv sig).
+Proof. exact denote_multi_canon. Qed.
+Print Assumptions c01_ir_make_multi_confmaps.
+
+Theorem c01_ir_generate_confmaps :
+  (forall pts H W sigma s,
+     denote_genc canon_genc (SVP3 pts) H W sigma s = Some (generate_confmaps3 pts H W sigma s)) /\
+  (forall pts H W sigma s,
+     denote_genc canon_genc (SVP4 pts) H W sigma s = Some (generate_confmaps4 pts H W sigma s)).
+Proof. exact (conj denote_genc_canon3 denote_genc_canon4). Qed.
+Print Assumptions c01_ir_generate_confmaps.
+
+Theorem c01_ir_generate_multiconfmaps :
+  (forall pts n_nodes H W num sigma s,
+     denote_genm canon_genm false (SVP4 pts) n_nodes H W num sigma s =
+     Some (generate_multiconfmaps pts n_nodes H W num sigma s)) /\
+  (forall cents n_nodes H W num sigma s,
+     denote_genm canon_genm true (SVP3 cents) n_nodes H W num sigma s =
+     Some (generate_multiconfmaps_centroids cents H W num sigma s)).
+Proof. exact (conj denote_genm_canon_instances denote_genm_canon_centroids). Qed.
+Print Assumptions c01_ir_generate_multiconfmaps.
+
+(* non-vacuity of the round-2 implications *)
+Example ex_c01_multi_nonvacuous :
+  exists a, cell4 (generate_multiconfmaps [[[Some (3#2, 5#2); None]; [None; None]; [Some (6#1, 1#1); Some (0#1, 0#1)]]]
+                     2 8 8 3 (3#2) 2) 0 0 1 1 = Some (Some a).
+Proof. eexists. vm_compute. reflexivity. Qed.
+
+Example ex_c01_centroid_nonvacuous :
+  exists a, cell4 (generate_multiconfmaps_centroids [[None; Some (3#2, 5#2); None]] 7 5 2 (3#2) 2) 0 0 1 1 = Some (Some a).
+Proof. eexists. vm_compute. reflexivity. Qed.
+
+Example ex_c01_padding_nonvacuous :
+  Forall (fun smp => Forall (fun inst => nth 0 inst None = None) (skipn 1 smp))
+         [[[Some (3#2, 5#2)]; [(None : kp)]]].
+Proof. repeat constructor. Qed.
+
+Example ex_c01_rank4_nonvacuous :
+  exists a, cell4 (generate_confmaps4 [[[Some (1#1, 1#1); None]; [None; Some (3#2, 5#2)]]] 8 8 (3#2) 2)
+                  0 (1 * 2 + 1) 1 1 = Some (Some a).
 Proof. eexists. vm_compute. reflexivity. Qed.
